@@ -84,4 +84,66 @@ def NoCleanAbove : Nat → Layer → Prop
 /-- listing of an ordered map as iterator items. -/
 def asItems (l : List (Bytes × Bytes)) : List Item := l.map (fun p => (p.1, some p.2))
 
+/-! ## reference answers for histories -/
+
+/-- the key a store actually uses for an API call: memdb (the base) reads a nil
+key as the empty key; cache and prefix stores panic on a nil key (`none`). -/
+def keyArg (x : Layer) (k : Option Bytes) : Option Bytes :=
+  match x with
+  | .base _ => some (k.getD [])
+  | _ => k
+
+/-- the reference answer of one operation: every *read* (`get`, `has`, `it`) is
+answered from the overlay `view` of the addressed store alone; the other
+operations answer `ok` / a panic class exactly as the model does. -/
+def specOut (l : Layer) (op : Op) : Out :=
+  match op with
+  | .get d k =>
+    match l.sub d with
+    | none => .err "badlayer"
+    | some x =>
+      match keyArg x k with
+      | none => .panic "nilkey"
+      | some k => .val (OMap.get (view x) k)
+  | .has d k =>
+    match l.sub d with
+    | none => .err "badlayer"
+    | some x =>
+      match keyArg x k with
+      | none => .panic "nilkey"
+      | some k => .bool (OMap.get (view x) k).isSome
+  | .iter d asc s e =>
+    match l.sub d with
+    | none => .err "badlayer"
+    | some x => .items (asItems (OMap.range (view x) s e asc))
+  | op => (step l op).1
+
+/-- reference outputs of a history (the states are the model's; the answers come from `view`). -/
+def specRun (l : Layer) : List Op → List Out
+  | [] => []
+  | op :: ops => specOut l op :: specRun (step l op).2 ops
+
+/-- the discipline under which clean cache entries cannot go stale: an operation
+that changes the view of a store (`set`, `del`, `wcp`) is applied only where no
+cache store above it holds read-through entries (in particular: at the top). -/
+def Safe (l : Layer) : Op → Prop
+  | .set d _ _ => NoCleanAbove d l
+  | .del d _ => NoCleanAbove d l
+  | .wcp d => NoCleanAbove d l
+  | _ => True
+
+def SafeRun : Layer → List Op → Prop
+  | _, [] => True
+  | l, op :: ops => Safe l op ∧ SafeRun (step l op).2 ops
+
+/-- operations on the top store that neither flush nor touch the checkpoint. -/
+def Op.topPlain : Op → Bool
+  | .get 0 _ => true
+  | .has 0 _ => true
+  | .set 0 _ _ => true
+  | .del 0 _ => true
+  | .iter 0 _ _ _ => true
+  | .hascp 0 => true
+  | _ => false
+
 end GnoVerif.C22
